@@ -9,7 +9,7 @@ import itertools
 
 META = dict(
     id="C07",
-    specs=["DQueue.tla", "DQueueMC.tla", "DQueueTrace.tla"],
+    specs=["DQueue.tla", "DQueueMC.tla", "DQueueTrace.tla", "DQueueSim.tla"],
     technique="TLA+ spec of the queue (TLC exhaustive over all 16 size/backlog configs) + TLC trace validation of real DeferredQueue executions (exhaustive short histories, random long ones)",
     level_text="TLC checks the delivery-history invariants (exactly once, FIFO, no delivery to cancelled gets, overflow/underflow exactly at the limits) on the specification for every history up to the stated depth, and every recorded execution of the real DeferredQueue is validated by TLC as a behaviour of that specification with every logged outcome matched.",
     level_note="Trusted: TLC, the adapter's logging of callback arguments and exception classes. Values are abstracted to object identities. Histories beyond the enumerated depth are sampled.",
@@ -160,6 +160,19 @@ def run(ctx):
     for i in range(nrand):
         cfg = {"size": ctx.rng.choice(lims + [5]), "backlog": ctx.rng.choice(lims + [5])}
         traces.append(run_history(cfg, random_history(ctx.rng, ctx.rng.randint(8, 40))))
+    # spec -> code: behaviours generated by TLC from the specification are stepped through the real queue;
+    # the real outcome of every step must be the one TLC predicted (checked again by TLC in validate()).
+    behs = ctx.simulate("DQueueSim", "DQueueSim.cfg", num=ctx.pick(100, 3000), depth=15)
+    drift = 0
+    for b in behs:
+        ops = [("cancel", h["g"]) if h["e"] == "cancel" else (h["e"],) for h in b["hist"]]
+        t = run_history(b["cfg"], ops)
+        predicted = [{k: h[k] for k in ("e", "res", "dl")} for h in b["hist"]]
+        if [{k: e[k] for k in ("e", "res", "dl")} for e in t["ev"]] != predicted:
+            drift += 1
+        traces.append(t)
+    ctx.extra["spec_behaviours_replayed"] = len(behs)
+    ctx.extra["spec_behaviours_not_reproduced"] = drift   # each of these is also rejected by TLC below
     ctx.note_traces(traces)
     ctx.log("recorded %d real executions" % len(traces))
     rej = ctx.validate("DQueueTrace", traces, shard_size=4000)
